@@ -482,7 +482,9 @@ func (conn *Conn) postConnect(ctx context.Context, start bool) {
 		// socket write), cancelling the context must end this connection.
 		go func(sock net.Conn) {
 			<-ctx.Done()
+			vhook("watch.fire", conn)
 			conn.close(sock)
+			vhook("watch.exit", conn)
 		}(conn.sock)
 	}
 }
